@@ -2,6 +2,7 @@
 //! canonical line per case; the extracted Coq model (`modeldrv`) implements the same protocol.
 mod codes;
 mod header;
+mod mdns;
 mod meter;
 mod pkt;
 mod text;
@@ -30,6 +31,9 @@ fn run_line(line: &str) -> String {
         "BUILD" => pkt::run_build(args),
         "RT" => pkt::run_rt(args),
         "NAMENEW" => textapi::run_namenew(args),
+        "STORE" => mdns::run_store(args),
+        "DISC" => mdns::run_disc(args),
+        "HISTB" => mdns::run_histb(args),
         "SUFFIX" => textapi::run_suffix(args),
         "CSTRNEW" => textapi::run_cstrnew(args),
         "TXTTEXT" => textapi::run_txttext(args),
